@@ -12,6 +12,12 @@ CLAIMS = {
          'DESIGN.md §7 C10'),
  'C19': ('proof + regenerated descriptors + differential probe', 'Lean 4 protobuf wire model with binary_roundtrip for every well-formed descriptor, instantiated to all 264 message descriptors regenerated from proto/sentinel/**; JSON half reduced to the regenerated Status tables (status_json_roundtrip_fails: known finding F7); probe19 compares model bytes with the real ProtoCodec on type-directed values of every registered type and mutated bytes through decode',
          'DESIGN.md §7 C19'),
+ 'C11': ('proof + correspondence', 'Lean 4 invariant proof over all histories: every node price within the governance bounds whose modified flag is clear, full bounds after every end-of-block (sweep clamps under min<=max), registrations/updates/purchases outside the bounds rejected; model tied to the code by lock-step differential execution incl. governance parameter changes',
+         'DESIGN.md §7 C11'),
+ 'C14': ('proof + correspondence', 'Lean 4: swap accepted iff enabled, sender = approver, hash unused, receiver not blocked; effect exactly amount/100 minted to the receiver and recorded; one swap per hash along every history; supply growth = sum of recorded swaps for every history; 32-byte hash key injective (regenerated key function)',
+         'DESIGN.md §7 C14'),
+ 'C15': ('proof + correspondence', 'Lean 4: the inflation hook equals takeWhile/dropWhile on the schedule in key order (chronological by the C17 time-key theorem), parameters of the latest due entry, each entry applied at most once over any sequence of block times and any history; tied by lock-step execution and a probe that runs the real hook alone',
+         'DESIGN.md §7 C15'),
  'C13': ('proof + correspondence', 'Lean 4 model of the SDK paginator with proofs that key/offset paging of filter-shaped callbacks enumerates exactly once, a refutation (witness) for the gated callback shape the repo uses in two handlers, regenerated callback-shape table, probe against the real query.Paginate/FilteredPaginate',
          'DESIGN.md §7 C13'),
  'C16': ('proof over regenerated definitions', 'Lean 4 theorems about AmountForBytes / GetProportionOfCoin / CeilTo as regenerated from utils/coin.go and types/bandwidth.go on every run; sdkmath model validated by the probe against cosmossdk.io/math',
